@@ -383,9 +383,10 @@ func sortCompare(thisObject *object, index0, index1 uint, compare *object) int {
 		j.value = x.string()
 		k.value = y.string()
 
+		// 15.4.4.11: the comparison of 11.8.5, by UTF-16 code units.
 		if j.value == k.value {
 			return 0
-		} else if j.value < k.value {
+		} else if stringLessThan(j.value, k.value) {
 			return -1
 		}
 
